@@ -286,3 +286,38 @@ func (r *Recorder) probe(ctx context.Context, spec *common.Spec, epc *common.Epo
 	r.C.Add("probe_events", 1)
 	return r.emit(ev)
 }
+
+// SlotsNeg runs common.ProcessSlots(copy of state, to) for a target slot that is NOT after the state's slot and
+// logs the outcome: process_slots asserts state.slot < slot, so the call must fail and leave the state as it was.
+func (r *Recorder) SlotsNeg(ctx context.Context, spec *common.Spec, epc *common.EpochsContext, state common.BeaconState, to common.Slot) error {
+	cp, err := absstate.Unwrap(state).CopyState()
+	if err != nil {
+		return err
+	}
+	work := &beacon.StandardUpgradeableBeaconState{BeaconState: cp}
+	ev := map[string]interface{}{"ev": "SlotsNeg", "to": int(to), "err": "", "ok": false}
+	func() {
+		defer func() {
+			if p := recover(); p != nil {
+				ev["panic"] = fmt.Sprint(p)
+			}
+		}()
+		if err := common.ProcessSlots(ctx, spec, epc.Clone(), work, to); err != nil {
+			ev["err"] = err.Error()
+		} else {
+			ev["ok"] = true
+		}
+	}()
+	post, _, err := absstate.ProjectLenient(spec, work)
+	if err != nil {
+		return err
+	}
+	ev["post"] = post
+	cur, _ := state.Slot()
+	if to == cur {
+		r.C.Add("slots_neg_to_current_slot", 1)
+	} else {
+		r.C.Add("slots_neg_to_earlier_slot", 1)
+	}
+	return r.emit(ev)
+}
